@@ -4,7 +4,7 @@
    compare_exchange_weak loop; local flush).  `reachable O es s` = the event list es is an execution of the model from
    its initial state ending in s: ALL interleavings, ALL programs, ANY number of threads, all spurious failures.
    `hist O s` = the history of invocation / linearisation / response marks of that execution. *)
-Require Import PV.Base.Prelude PV.Base.F64 PV.Model.Conc PV.Model.AtomicConc PV.Proofs.AtomicConcFacts PV.Spec.SpecC01.
+Require Import PV.Base.Prelude PV.Base.F64 PV.Model.Conc PV.Model.AtomicConc PV.Proofs.AtomicConcFacts PV.Spec.SpecC01 PV.Spec.SpecC11 PV.Proofs.AtomicSpecFacts.
 From Coq Require Import Permutation Floats.
 Require PV.Model.VecConc PV.Proofs.VecConcBase PV.Proofs.VecConcFacts PV.Props.C10.
 Open Scope N_scope.
@@ -136,6 +136,31 @@ Proof.
   intros e s2 H2 He. exact (done_only_returns O s1 t c RUnit e s2 Hd H2 He).
 Qed.
 
+(* ---- validator accepts the trace => the executable spec holds.
+   FULL STATEMENT:  forall isf es, trace_ok (ops isf) es = true -> in_domain es = true -> spec_c01 isf es = true,
+   where spec_c01 = no panic / hang && only counter calls && (A) read-subset && (B) monotone reads && (C) linearisation search.
+   PROVED (c01_spec_of_validated_partial_int, _float): the clauses "no panic / hang", "only counter calls" and (C) - the search FINDS a
+   linearisation, whatever the number of calls (so no budget / size side condition is needed) - for both flavours; the side
+   condition is executable: calls_in counter_call es (every invoked call belongs to the counter interface).
+   Proof: the spec's marker bookkeeping (calls_of) simulates the model (AtomicSpecFacts.sim_step): along every execution there
+   is an order of the linearised calls that replays on the SPEC's sequential counter to the returned values, respects real time
+   and contains every returned call; the search is complete for such an order (W_search, V_W).
+   NOT PROVED here: clauses (A) and (B) as boolean functions of the trace (spec_c01_AB; (A) needs exactness of the binary64
+   sums inside exact_window, (B) the no-wrap / non-negativity side conditions); their model-level counterparts are c01_read_prefix /
+   c01_read_subset / c01_read_sum and c01_monotone / c01_monotone_float above.  c01_spec_from_clauses states how the pieces combine. *)
+Theorem c01_spec_of_validated_partial_int es :
+  trace_ok IntOps es = true -> calls_in counter_call es = true -> spec_c01_core false es = true.
+Proof. exact (c01_core_of_validated_int es). Qed.
+Theorem c01_spec_of_validated_partial_float es :
+  trace_ok FloatOps es = true -> calls_in counter_call es = true -> spec_c01_core true es = true.
+Proof. exact (c01_core_of_validated_float es). Qed.
+Theorem c01_spec_from_clauses isf es : spec_c01_core isf es = true -> spec_c01_AB isf es = true -> spec_c01 isf es = true.
+Proof. exact (spec_c01_from_clauses isf es). Qed.
+(* the generic form: any sequential object that the model's specification steps refine *)
+Theorem c01_search_complete S step same ord pend s fuel :
+  W S step same pend s ord -> (length ord < fuel)%nat -> lin_search S step same fuel pend s = true.
+Proof. exact (W_search S step same ord pend s fuel). Qed.
+
 (* ---- non-vacuity.  A float counter, two threads, the lost-update window entered on purpose:
    t0 load, t1 load, t1 cas ok, t0 cas FAILS (the cell changed), t0 load, t0 cas ok.  The trace is an execution of the
    model, the final value is 2.0, and the executable spec accepts it. *)
@@ -239,6 +264,15 @@ Example c01_tiny_flush_not_skipped :
   first_reject (FlFloat, tiny_dropped_trace) = Some 1 /\ spec_c01 true tiny_dropped_trace = false.
 Proof. repeat split; vm_compute; reflexivity. Qed.
 
+(* real traces are in the domain: the window trace (float) and the flush trace (integer) satisfy the side condition, and the
+   theorem (not evaluation) gives the clauses *)
+Example c01_window_trace_in_domain : calls_in counter_call window_trace = true /\ spec_c01_core true window_trace = true.
+Proof. split; [vm_compute; reflexivity|]. apply c01_spec_of_validated_partial_float; [exact c01_window_trace_valid|vm_compute; reflexivity]. Qed.
+Example c01_int_trace_in_domain : calls_in counter_call int_trace = true /\ spec_c01_core false int_trace = true.
+Proof. split; [vm_compute; reflexivity|]. apply c01_spec_of_validated_partial_int; [exact (proj1 c01_int_trace_valid)|vm_compute; reflexivity]. Qed.
+
+Check c01_spec_of_validated_partial_int : forall es, trace_ok IntOps es = true -> calls_in counter_call es = true -> spec_c01_core false es = true.
+Check c01_spec_of_validated_partial_float : forall es, trace_ok FloatOps es = true -> calls_in counter_call es = true -> spec_c01_core true es = true.
 Check c01_int_lin : forall es s, reachable IntOps es s ->
   let h := hist IntOps s in
   proj_hist h = proj_ev IntOps es /\ hist_wf h /\ spec_run IntOps 0 (lin_calls h) = Some (cell s, lin_rets h).
@@ -293,3 +327,9 @@ Print Assumptions VecChild.c01_vec_child_cell_is_sum_of_updates.
 Print Assumptions VecChild.c01_vec_child_validated_traces_are_model_paths.
 Print Assumptions c01_vec_spec_accepts_and_rejects.
 Print Assumptions c01_tiny_flush_not_skipped.
+Print Assumptions c01_spec_of_validated_partial_int.
+Print Assumptions c01_spec_of_validated_partial_float.
+Print Assumptions c01_spec_from_clauses.
+Print Assumptions c01_search_complete.
+Print Assumptions c01_window_trace_in_domain.
+Print Assumptions c01_int_trace_in_domain.
